@@ -49,6 +49,7 @@ func classify(r *sctree.Runner, t *sctree.Tree) (bool, []string) {
 	add(r.MutatedAfterGet > 0, "caller-mutated-returned-value")
 	add(t.WideTxns > 0, "transaction-of-more-than-30-writes")
 	add(t.HugeTxns > 0, "transaction-of-more-than-1000-writes")
+	add(r.QueryTxns > 0, "transaction-over-a-query-view")
 	add(len(t.Blocks) > 256, "chain-of-more-than-256-blocks")
 	nt := (t.HasFork() || t.MultiDepthKey()) && r.AncestorThenDescendant
 	return nt, cls
@@ -68,6 +69,18 @@ func TestNeverWrong(t *testing.T) {
 		}
 		r := sctree.NewRunner(rt, tree, h)
 		r.Run(gen.Uniform(rt, 10, 40+4*len(tree.Blocks), "nsteps"))
+		if gen.Chance(rt, 10, "emptycaches") {
+			// stand-alone transaction caches (no block behind them) do not know of each other
+			a := statecache.NewEmpty()
+			a.Set("k0", h.Make("alone"))
+			if v, ok := a.Get("k0"); !ok || h.Read(v) != "alone" {
+				rt.Fatalf("NewEmpty(): own write not found")
+			}
+			a.Commit()
+			if v, ok := statecache.NewEmpty().Get("k0"); ok {
+				rt.Fatalf("a fresh NewEmpty() cache returns %q for a key another stand-alone cache wrote and committed", h.Read(v))
+			}
+		}
 		if r.CappedLookups > 0 {
 			ev.Excluded(memoEvictionFinding + ": in chains of more than 80 blocks, lookups happen at 80 of the blocks only (first ten, last fifty, twenty in between)")
 		}
